@@ -401,6 +401,12 @@ def run(ctx):
         ctx.check(not muts, "R08.10", "%s|update-attempt-neither-removes-nor-inserts" % g.name,
                   "the in-place update attempt changes an entry it found alive or nothing at all: it never removes or inserts store entries", g.where(), "; ".join(sorted(set(muts))[:3]))
 
+    # ---- R08.11 the weight of an upsert is applied by key id (UpdateWeight(id, w)): two keys must never share an id
+    import c10 as c10_
+    for o in ctx.own_of("c10"):
+        if o["rule"] == "R10.5" and o["key"].endswith("ids-fresh"):
+            ctx._add(o["status"], "R08.11", "ids-fresh", o["desc"] + " [UpdateWeight, the expiry index and the weight map all address an entry by its id]", o["where"], o["detail"])
+
     # ---- R08.7 in-place update agrees with readability -------------------------------------------------------
     for g, bb, t in S.lookup_sites:
         if g.name in upd_store:
